@@ -22,8 +22,9 @@ ASSUMPTIONS = [
     "on the same path parse back to the tree that was written)",
     "stub: ciborium::ser::into_writer = records the Value tree it is handed and yields an opaque "
     "non-empty byte string standing for its deterministic encoding",
-    "byte strings are opaque sequences of symbolic 64-bit length unless stated; text is ASCII of the "
-    "stated concrete lengths",
+    "byte strings are opaque sequences of symbolic 64-bit length unless stated; text has the stated "
+    "concrete lengths with symbolic bytes constrained to well-formed UTF-8 (every sequence up to 3 bytes; "
+    "ASCII beyond)",
 ]
 
 _ENGINE = None
